@@ -385,6 +385,17 @@ def main(tier, seed):
     for k in ("Percent", "Unos"):
         if k in A.atoms:
             ar += [(("atom", k), "i32"), (("atom", k), "f64")]
+    # every clause of the policy on its own, on dimensionless units: integer factors on both sides of each rep's overflow threshold
+    # (2147 * k <= max), truncating factors, and floating reps (always accepted)
+    dl = ("atom", "Unos") if "Unos" in A.atoms else None
+    if dl:
+        k3, k9 = uexpr.scale_of({"p2": 3, "p5": 3}), uexpr.scale_of({"p2": 9, "p5": 9})
+        for sc, reps_ in ((k3, ["i8", "u8", "i16", "u16", "i32", "i64", "f32"]), (k9, ["i32", "u32", "i64", "u64", "f64"]),
+                          (uexpr.scale_of({"p2": 1}), ["i8", "u8", "i16", "i32"]), (uexpr.scale_of({"p2": -1}), ["i32", "f64"]),
+                          (uexpr.scale_of({"p7": 1, "p11": -1}), ["i64", "f32"])):
+            for r_ in reps_:
+                if r_ in CT:
+                    ar.append((("scale", dl, sc), r_))
     am = drv.ask([f"asraw {r} {uexpr.sexpr(u, A)}" for u, r in ar])
 
     def aprobe(j):
